@@ -1,5 +1,32 @@
 package main
 
+// T-facts / T-schema generators register themselves here (one Go file per area,
+// `func init() { registerFacts("FactsXyz", genXyz) }`). Each returns the Lean
+// source of module SiaModel.Gen.<name> (without the header line), a JSON-able
+// report, and a list of errors (a broken tie — never silently skipped).
+
+import "sort"
+
+type factGen func(L *loader) (leanSrc string, report any, errs []string)
+
+var factGens = map[string]factGen{}
+
+func registerFacts(name string, g factGen) { factGens[name] = g }
+
 func runFacts(L *loader) (map[string]string, any, []string) {
-	return map[string]string{}, nil, nil
+	out := map[string]string{}
+	rep := map[string]any{}
+	var errs []string
+	var names []string
+	for n := range factGens {
+		names = append(names, n)
+	}
+	sort.Strings(names)
+	for _, n := range names {
+		src, r, e := factGens[n](L)
+		out[n] = src
+		rep[n] = r
+		errs = append(errs, e...)
+	}
+	return out, rep, errs
 }
